@@ -2,5 +2,5 @@ SPECIFICATION MCSpec
 CONSTANTS Keys = {1, 2, 3, 4, 5, 6, 7}
 VIEW View
 INVARIANTS TypeOK SearchTreeOrder TreeIsAllNodes ListIsInOrder CountOK
-PROPERTY Refines
+PROPERTY RefinesDirected
 ACTION_CONSTRAINT Emit
